@@ -11,7 +11,7 @@ import (
 	"verifharness/spec"
 )
 
-// Score histories: one object, a generated sequence of Set calls and of calls of SINGLE scoring
+// Score histories: one object, a generated sequence of Set calls, whole-object assignments (*o = *fresh) and calls of SINGLE scoring
 // methods in any order (BaseScore, TemporalScore, EnvironmentalScore, Impact, Exploitability; v4.0:
 // Score), every returned number compared with the oracle evaluated on the model of the object.
 // The class walks call the methods in one fixed order on every object; state kept by the package
@@ -20,6 +20,9 @@ import (
 
 type ScoreStep struct {
 	Set  *gen.Op `json:"set,omitempty"`
+	// Assign: the object is overwritten as a whole (*o = *fresh) with a freshly parsed valid vector - no Set is
+	// involved, so a result remembered per address (and dropped by Set) is now stale
+	Assign string `json:"assign,omitempty"`
 	Call int     `json:"call"` // index of the scoring method (when Set is nil)
 }
 
@@ -81,6 +84,28 @@ func checkScoreHist(c ScoreHist) error {
 		nfn = 1
 	}
 	for k, st := range c.Steps {
+		if st.Assign != "" {
+			// the source is parsed at odd steps and built by Set calls on a zero object at even steps (no
+			// ParseVector between the object's own parse and the assignment: "the object parsed last")
+			var f adapt.Obj
+			m2, okv := spec.Parse(p.V, st.Assign)
+			if !okv {
+				return fmt.Errorf("harness: assigned vector %q is not valid", st.Assign)
+			}
+			if k%2 == 1 {
+				var err error
+				if f, _, err = startObject(p, st.Assign); err != nil {
+					return nil // C01 owns a valid vector that does not parse
+				}
+			} else if b, err := p.Build(m2); err != nil {
+				return nil // C07 owns a legal Set that fails
+			} else {
+				f = b
+			}
+			o.Assign(f)
+			model = m2
+			continue
+		}
 		if st.Set != nil {
 			abv, val := string(st.Set.Abv), string(st.Set.Val)
 			ok := modelSet(p.V, model, abv, val)
@@ -121,7 +146,9 @@ func drawScoreHist(rt *rapid.T, vi int) ScoreHist {
 	v := spec.Versions[vi]
 	n := rapid.IntRange(2, 24).Draw(rt, "steps")
 	for k := 0; k < n; k++ {
-		if rapid.IntRange(0, 2).Draw(rt, "what") == 0 {
+		if k > 0 && rapid.IntRange(0, 7).Draw(rt, "assign") == 0 {
+			c.Steps = append(c.Steps, ScoreStep{Assign: gen.ValidVector(rt, vi).S})
+		} else if rapid.IntRange(0, 2).Draw(rt, "what") == 0 {
 			// a legal Set, biased to the temporal / environmental metrics (the base metrics stay: the
 			// interesting neighbours share their base part)
 			var m spec.Metric
@@ -146,7 +173,7 @@ func runScoreHists(h *H, vi int, n int) {
 		c := drawScoreHist(rt, vi)
 		calls := 0
 		for _, s := range c.Steps {
-			if s.Set == nil {
+			if s.Set == nil && s.Assign == "" {
 				calls++
 			}
 		}
@@ -162,7 +189,9 @@ func runScoreHists(h *H, vi int, n int) {
 func stepsKey(st []ScoreStep) string {
 	s := ""
 	for _, x := range st {
-		if x.Set != nil {
+		if x.Assign != "" {
+			s += "<-" + x.Assign + ";"
+		} else if x.Set != nil {
 			s += string(x.Set.Abv) + "=" + string(x.Set.Val) + ";"
 		} else {
 			s += fmt.Sprintf("f%d;", x.Call)
